@@ -1,21 +1,35 @@
 (* C11 — Export then import reproduces the ledger, and the copy stays writable.  Statements only; model Ledger/Import.v
-   (tied to the real Export / Import / state tracker / Bulker by `vh importx`), proofs Ledger/ImportProofs.v.
+   (tied to the real Export / Import / state tracker / Bulker by `vh importx`), proofs Ledger/ImportProofs.v, ImportSim.v.
 
-   FULL STATEMENT (kept for reference; REFUTED in three places by the faithful model, each confirmed on the real stack):
+   FULL STATEMENT (kept for reference; REFUTED in two places by the faithful model, each confirmed on the real stack; a third
+   refutation, the atomic bulk, was repaired):
      forall f h, let a := source f h in  import i_init (export a) succeeds with a copy b such that
        every observable of b (volumes, transactions, accounts incl. first usage / dates, metadata and metadata histories,
        logs, hashes) equals that of a, and a write through the single, non-atomic-bulk and ATOMIC-bulk path on b gives
-       what it gives on a, with log / transaction ids above every imported id.
-   Refuted by: C11_refuted_first_usage (SET_METADATA on an account lowers first_usage to the log date),
-               C11_refuted_updated_at (DELETE_METADATA on an account is dated at the import, also in the metadata history),
-               C11_refuted_atomic_writable / C11_refuted_atomic_log_id (atomic bulk on the still-initializing copy draws
-               ids from sequences that were never resynchronised: S-11).
-   PROVED here: the hash part for every hash function (C11_hashes_roundtrip), writability through the facade
-   (C11_writable_single: state flip + log id above every imported id; bulk elements are such writes), and the concrete
-   round trip of a non-trivial history (C11_example).  The table-level round-trip theorem over ALL histories is NOT proved
-   in this file (see DESIGN §9 C11): the tie compares the complete copy with the model on every run instead. *)
+       what it gives on a, with log / transaction ids = max + 1.   (the atomic-bulk part held only after a repair)
+   PROVED for EVERY feature set, history, hash function and import time (C11_roundtrip, no hypothesis on the history):
+     the import of the export into the pristine ledger is ACCEPTED, leaves the ledger `initializing`, and reproduces
+       volumes; every column of the transactions table except post-commit EFFECTIVE volumes (ids, postings, current metadata,
+       timestamps, references, inserted_at, updated_at, reverted_at, post-commit volumes); the transaction metadata history
+       (revisions and dates); the logs (ids, payloads, dates, idempotency keys and inputs); the hash column; of the accounts
+       table, row by row: address, current metadata, insertion date (NOT first usage, updated_at, metadata history: see below).
+   PROVED under a hypothesis:
+     C11_roundtrip_moves            no dry run in the history, or MOVES_HISTORY off: additionally the moves table (seq included)
+                                    and the effective volumes, i.e. the transactions table entirely (a dry run consumes
+                                    moves.seq values on the source: the copy then renumbers seq, which no read exposes; the
+                                    tie compares moves modulo seq on every case);
+     C11_roundtrip_accounts_partial no SET/DELETE_METADATA operation on accounts in the history (account metadata given with
+                                    transactions is allowed): additionally first usage and updated_at, i.e. the accounts table
+                                    entirely, and the account metadata history;
+     C11_roundtrip_tables_partial   both: all seven tables are identical.
+   REFUTED without the accounts hypothesis: C11_refuted_first_usage (SET_METADATA on an account lowers first_usage to the log
+     date), C11_refuted_updated_at (DELETE_METADATA on an account is dated at the import, also in the metadata history).
+   Writability: C11_writable_single (facade: state flip, log id = max + 1, transaction id = max + 1; an element of a
+     non-atomic bulk is such a write); C11_writable_atomic (since the repair fixes/01-facade-begintx the atomic bulk runs the
+     same protocol: a one-element bulk IS the facade write); the behaviour before the repair (S-11: never-resynchronised
+     sequences) is kept as C11_unrepaired_atomic_writable / C11_unrepaired_atomic_log_id. *)
 From Coq Require Import List ZArith String Bool Ascii Lia Sorted.
-From LV Require Import Base.Util Base.Json Ledger.Types Ledger.Core Ledger.Bulk Ledger.Invariants Ledger.HashChain Ledger.Import Ledger.ImportProofs.
+From LV Require Import Base.Util Base.Json Ledger.Types Ledger.Core Ledger.Bulk Ledger.Invariants Ledger.HashChain Ledger.Import Ledger.ImportProofs Ledger.ImportSim.
 Import ListNotations.
 Open Scope Z_scope.
 
@@ -34,13 +48,93 @@ Theorem C11_hash_check_sound : forall (H : bytes -> bytes) pre t r t',
 Proof. intros H pre t r t'. apply imp_hash_insert_sound. Qed.
 Print Assumptions C11_hash_check_sound.
 
+(* THE ROUND TRIP, for every feature set, history, hash function, total trigger pre-image and import time: accepted, still
+   initializing, and the observables listed in the header are those of the source. No hypothesis on the history. *)
+Theorem C11_roundtrip : forall (H : bytes -> bytes) (pre : option bytes -> log -> option bytes) f h now,
+  (forall p l, pre p l <> None) ->
+  let a := source H pre f h in
+  exists b, imp_import H pre f now i_init (imp_export_rows a) = (b, None) /\ i_l b = Initializing /\
+    s_vols (i_s b) = s_vols (i_s a) /\
+    map tx_core (s_txs (i_s b)) = map tx_core (s_txs (i_s a)) /\
+    s_thist (i_s b) = s_thist (i_s a) /\
+    s_logs (i_s b) = s_logs (i_s a) /\
+    map av (s_accounts (i_s b)) = map av (s_accounts (i_s a)) /\
+    i_tab b = i_tab a.
+Proof.
+  intros H pre f h now Hp a.
+  destruct (import_roundtrip H pre Hp f false false now h) as (b & E & S & Et & El); [intros D; discriminate D | intros D; discriminate D |].
+  exists b. destruct S as [Hv Ht Hh Hl _ _ Hav _]. repeat split; assumption.
+Qed.
+Print Assumptions C11_roundtrip.
+
+(* what [av] keeps of an account row: address, current metadata, insertion date (not first usage, not updated_at) *)
+Theorem C11_av_fields : forall x y, av x = av y -> a_addr x = a_addr y /\ a_meta x = a_meta y /\ a_ins x = a_ins y.
+Proof. intros x y E. inversion E. repeat split; assumption. Qed.
+Print Assumptions C11_av_fields.
+
+(* what [tx_core] keeps: everything but the effective volumes *)
+Theorem C11_tx_core_fields : forall x y, tx_core x = tx_core y ->
+  t_id x = t_id y /\ t_postings x = t_postings y /\ t_meta x = t_meta y /\ t_ts x = t_ts y /\ t_ref x = t_ref y /\
+  t_ins x = t_ins y /\ t_upd x = t_upd y /\ t_rev x = t_rev y /\ t_pcv x = t_pcv y.
+Proof. intros x y E. inversion E. repeat split; assumption. Qed.
+Print Assumptions C11_tx_core_fields.
+
+(* moves and effective volumes: histories without dry runs, or ledgers without MOVES_HISTORY *)
+Theorem C11_roundtrip_moves : forall (H : bytes -> bytes) pre f h now,
+  (forall p l, pre p l <> None) -> f_moves f = false \/ dry_free h ->
+  let a := source H pre f h in
+  exists b, imp_import H pre f now i_init (imp_export_rows a) = (b, None) /\
+    s_txs (i_s b) = s_txs (i_s a) /\ s_moves (i_s b) = s_moves (i_s a).
+Proof.
+  intros H pre f h now Hp Hm a.
+  destruct (import_roundtrip H pre Hp f true false now h) as (b & E & S & _); [intros _; exact Hm | intros D; discriminate D |].
+  exists b. destruct (sim_mv _ _ _ _ _ S eq_refl) as (A & B0 & _). repeat split; assumption.
+Qed.
+Print Assumptions C11_roundtrip_moves.
+
+(* accounts (metadata, first usage, insertion date, updated_at) and their metadata history: histories without
+   SET/DELETE_METADATA operations on accounts; without the hypothesis: C11_refuted_first_usage, C11_refuted_updated_at *)
+Theorem C11_roundtrip_accounts_partial : forall (H : bytes -> bytes) pre f h now,
+  (forall p l, pre p l <> None) -> no_acc_meta_ops h ->
+  let a := source H pre f h in
+  exists b, imp_import H pre f now i_init (imp_export_rows a) = (b, None) /\
+    s_accounts (i_s b) = s_accounts (i_s a) /\ s_ahist (i_s b) = s_ahist (i_s a).
+Proof.
+  intros H pre f h now Hp Ha a.
+  destruct (import_roundtrip H pre Hp f false true now h) as (b & E & S & _); [intros D; discriminate D | intros _; exact Ha |].
+  exists b. destruct (sim_acc _ _ _ _ _ S eq_refl) as (A & B0). repeat split; assumption.
+Qed.
+Print Assumptions C11_roundtrip_accounts_partial.
+
+(* both hypotheses: the copy's seven tables and hash column ARE the source's *)
+Theorem C11_roundtrip_tables_partial : forall (H : bytes -> bytes) pre f h now,
+  (forall p l, pre p l <> None) -> f_moves f = false \/ dry_free h -> no_acc_meta_ops h ->
+  let a := source H pre f h in
+  exists b, imp_import H pre f now i_init (imp_export_rows a) = (b, None) /\ tables (i_s b) = tables (i_s a) /\ i_tab b = i_tab a.
+Proof.
+  intros H pre f h now Hp Hm Ha a.
+  destruct (import_roundtrip H pre Hp f true true now h) as (b & E & S & Et & _); [intros _; exact Hm | intros _; exact Ha |].
+  exists b. split; [exact E|]. split; [|exact Et].
+  destruct S as [Hv _ Hh Hl Hmv Hacc _ _]. destruct (Hmv eq_refl) as (A & B0 & _). destruct (Hacc eq_refl) as (C & D).
+  unfold tables. rewrite Hv, B0, A, C, D, Hh, Hl. reflexivity.
+Qed.
+Print Assumptions C11_roundtrip_tables_partial.
+
 (* writable through the facade (single request = element of a non-atomic bulk): the first committed write on the
-   still-initializing copy flips it to in-use and its log id exceeds every stored (imported) log id *)
+   still-initializing copy flips it to in-use; its log id is max(stored log ids) + 1 and the id of the transaction it creates is max(stored transaction ids) + 1 *)
 Theorem C11_writable_single : forall (H : bytes -> bytes) pre f now b o b' lid tid,
   i_l b = Initializing -> o_dry o = false -> w_single H pre f now b o = (b', Some (ROk lid tid false)) ->
-  i_l b' = InUse /\ (forall l, In l (s_logs (i_s b)) -> l_id l < lid) /\
+  i_l b' = InUse /\
+  (forall m, max_id l_id (s_logs (i_s b)) = Some m -> lid = m + 1) /\
+  (forall t m, tid = Some t -> max_id t_id (s_txs (i_s b)) = Some m -> t = m + 1) /\
+  (forall l, In l (s_logs (i_s b)) -> l_id l < lid) /\
   exists l, s_logs (i_s b') = s_logs (i_s b) ++ [l] /\ l_id l = lid.
-Proof. intros H pre f now b o b' lid tid. apply single_after_import_fresh_log. Qed.
+Proof.
+  intros H pre f now b o b' lid tid El Hd E.
+  destruct (single_after_import_fresh_log H pre f now b o b' lid tid El Hd E) as (A & B0 & C).
+  destruct (single_after_import_next_ids H pre f now b o b' lid tid El Hd E) as (D & D').
+  repeat split; assumption.
+Qed.
 Print Assumptions C11_writable_single.
 
 Theorem C11_resync_above : forall s,
@@ -78,24 +172,56 @@ Proof.
 Qed.
 Print Assumptions C11_refuted_updated_at.
 
-(* S-11: after the import the copy is still `initializing`; an ATOMIC bulk goes to the inner controller, draws transaction
-   id 1 from the never-resynchronised sequence, hits the primary key (nil dereference in InsertTransaction, recovered by
-   the worker pool) and the final COMMIT reports the rollback; the same request through the facade succeeds with id 2 *)
-Theorem C11_refuted_atomic_writable : exists f h o,
+(* ATOMIC bulk, since the repair fixes/01-facade-begintx (the facade overrides BeginTX): a bulk of one element on the
+   still-initializing copy IS the facade write of that element: same tables, same hash column, the ledger in-use, and by
+   C11_writable_single log id = max + 1, transaction id = max + 1 *)
+Theorem C11_writable_atomic : forall (H : bytes -> bytes) pre f now b o s' lid tid,
+  i_l b = Initializing -> o_dry o = false -> step f now (resync (i_s b)) o = SR s' (ROk lid tid false) ->
+  w_atomic H pre f now b [o] = (fst (w_single H pre f now b o), AResults [ARes (BRes (Some (ROk lid tid false)))]).
+Proof. intros H pre f now b o s' lid tid. apply atomic_single_element. Qed.
+Print Assumptions C11_writable_atomic.
+
+(* the two witnesses of the defect (S-11), now POSITIVE: after an import the same request through the atomic path and
+   through the non-atomic path gives the same answer with the next ids ... *)
+Theorem C11_atomic_after_import_next_ids : exists f h o,
   let '(a, b, rs) := run_script f h [AImport 0 None 5000; AAtomic 6000 [o]] in
-  (exists b0, rs = [RImport None b0; RAtomic ACommitFailed]) /\
+  (exists b0, rs = [RImport None b0; RAtomic (AResults [ARes (BRes (Some (ROk 2 (Some 2) false)))])]) /\ i_l b = InUse /\
   let '(_, _, rs') := run_script f h [AImport 0 None 5000; ABulk 6000 [o]] in
   exists b0, rs' = [RImport None b0; RBulk [BRes (Some (ROk 2 (Some 2) false))]].
 Proof.
   exists fall, [(10, mk (ICreate [P "world" "bob" 5] None "" [] [] false))], (mk (ICreate [P "world" "alice" 7] None "" [] [] false)).
-  vm_compute. split; eexists; reflexivity.
+  vm_compute. split; [eexists; reflexivity|]. split; [reflexivity | eexists; reflexivity].
 Qed.
-Print Assumptions C11_refuted_atomic_writable.
+Print Assumptions C11_atomic_after_import_next_ids.
 
-(* the other face of S-11: when the imported ids do not start at 1 (the source spent log id 1 on a dry run) the atomic
-   bulk SUCCEEDS with log id 1, below the imported log 2: the journal order no longer is the write order *)
-Theorem C11_refuted_atomic_log_id : exists f h o,
+(* ... also when the imported ids do not start at 1: the new log gets id 3, above the imported log 2 *)
+Theorem C11_atomic_after_import_log_order : exists f h o,
   let '(a, b, rs) := run_script f h [AImport 0 None 5000; AAtomic 6000 [o]] in
+  map l_id (s_logs (i_s a)) = [2] /\ map l_id (s_logs (i_s b)) = [2; 3] /\
+  exists b0, rs = [RImport None b0; RAtomic (AResults [ARes (BRes (Some (ROk 3 None false)))])].
+Proof.
+  exists fnohash, [(10, {| o_in := ISetMeta (TAcc "bob") [("k", "v")]; o_ik := ""; o_dry := true |}); (20, mk (ISetMeta (TAcc "bob") [("k", "v")]))],
+         (mk (ISetMeta (TAcc "alice") [("k", "w")])).
+  vm_compute. repeat split. eexists; reflexivity.
+Qed.
+Print Assumptions C11_atomic_after_import_log_order.
+
+(* FOR THE RECORD, the code BEFORE the repair (w_atomic_unrepaired: BeginTX inherited, no flip, no resync), as confirmed on
+   the real stack (known finding KF-C11-atomic-bulk-after-import-unsynced-sequences, fixed): transaction id 1 is drawn
+   from the never-resynchronised sequence, hits the primary key (nil dereference in InsertTransaction, recovered by the
+   worker pool) and the final COMMIT reports the rollback; or, when the imported ids do not start at 1, the bulk succeeds
+   with log id 1 below the imported log 2 *)
+Theorem C11_unrepaired_atomic_writable : exists f h o,
+  let '(a, b, rs) := run_script f h [AImport 0 None 5000; AAtomicUnrepaired 6000 [o]] in
+  exists b0, rs = [RImport None b0; RAtomic ACommitFailed].
+Proof.
+  exists fall, [(10, mk (ICreate [P "world" "bob" 5] None "" [] [] false))], (mk (ICreate [P "world" "alice" 7] None "" [] [] false)).
+  vm_compute. eexists; reflexivity.
+Qed.
+Print Assumptions C11_unrepaired_atomic_writable.
+
+Theorem C11_unrepaired_atomic_log_id : exists f h o,
+  let '(a, b, rs) := run_script f h [AImport 0 None 5000; AAtomicUnrepaired 6000 [o]] in
   map l_id (s_logs (i_s a)) = [2] /\ map l_id (s_logs (i_s b)) = [2; 1] /\
   exists b0, rs = [RImport None b0; RAtomic (AResults [ARes (BRes (Some (ROk 1 None false)))])].
 Proof.
@@ -103,7 +229,7 @@ Proof.
          (mk (ISetMeta (TAcc "alice") [("k", "w")])).
   vm_compute. repeat split. eexists; reflexivity.
 Qed.
-Print Assumptions C11_refuted_atomic_log_id.
+Print Assumptions C11_unrepaired_atomic_log_id.
 
 Definition noseq (m : move) : move :=
   {| m_seq := 0; m_tx := m_tx m; m_acc := m_acc m; m_asset := m_asset m; m_amt := m_amt m; m_src := m_src m; m_ins := m_ins m;
